@@ -17,7 +17,7 @@ def ancestors_and_self(p, fid):
     """kept nodes (paths) whose function reaches fid (they were waiting for it), incl. the node of fid itself."""
     out = set()
     for path, n in gen.kept_nodes(p).items():
-        if n["fn"] and fid in gen.reach(p, n["fn"]):
+        if n["fn"] and fid in gen.reach(p, n["fn"], runtime=True):
             out.add(path)
     return out
 
@@ -175,6 +175,71 @@ def _retry_worker(arg):
     return out
 
 
+def _leak_worker(arg):
+    import os
+    import dds
+    from vp import vlog
+    from checks import scen10
+
+    store, cls, kept_loader, root = arg
+    dds.accept_module(scen10)
+    if store == "memory":
+        dds.set_store("memory")
+    else:
+        dds.set_store("local", internal_dir=os.path.join(root, "i"), data_dir=os.path.join(root, "d"), cache_objects=(10 if store == "local_lru" else None))
+    out = {}
+
+    def run(label, thunk):
+        vlog.clear()
+        try:
+            out[label] = ("ok", thunk(), vlog.snapshot())
+        except BaseException as e:  # noqa
+            out[label] = ("exc", type(e).__name__, e is vlog.raised.get("boom"), vlog.snapshot())
+
+    run("populate", lambda: dds.eval(scen10.p_table_ok))
+    run("failing", lambda: dds.eval(scen10.p_table_then_fail, cls))
+    run("loader", lambda: dds.eval(scen10.p_kept_loader if kept_loader else scen10.p_loader))
+    run("plain_load", lambda: dds.load("/c10l/table"))
+    run("loader_again", lambda: dds.eval(scen10.p_kept_loader if kept_loader else scen10.p_loader))
+    return out
+
+
+def leak_job(arg):
+    """populate -> an evaluation that completes a new result for the path and then fails -> another pipeline that only
+    loads the path: it sees what was committed before, as if the failed evaluation had not happened."""
+    store, cls, kept_loader = arg
+    rep = core.Report("C10")
+    rep.evaluations = 1
+    case = {"leak": list(arg)}
+    desc = "populate, failing evaluation (%s) after a new sub-result for the path completed, then a pipeline that only loads the path (%s, store %s)" % (cls, "kept reader" if kept_loader else "plain reader", store)
+    with core.Scratch("vp_c10l_") as td:
+        o = core.fork_call(_leak_worker, (store, cls, kept_loader, td), timeout=300)
+    if isinstance(o, core.JobFailed):
+        rep.inconclusive.append("leak worker: %r" % (o,))
+        return rep
+    if o["populate"][:2] != ("ok", "table-v1"):
+        rep.inconclusive.append("populate step gave %r" % (o["populate"][:2],))
+        return rep
+    f = o["failing"]
+    rep.count("failed_evaluations")
+    if f[0] != "exc" or not f[2]:
+        rep.violate("%s: the failing evaluation gave %r instead of the raised object" % (desc, f[:3]), case, mechanism="exception-not-propagated-unchanged")
+        return rep
+    if "table_v2" not in f[3]:
+        rep.inconclusive.append("the sub-result did not complete before the failure")
+        return rep
+    rep.count("exception_identity_confirmed")
+    for label in ("loader", "plain_load", "loader_again"):
+        r = o[label]
+        rep.count("followup_evaluations")
+        want = "table-v1" if label == "plain_load" else ("loaded", "table-v1")
+        if r[0] != "ok" or r[1] != want:
+            rep.violate("%s: %s returned %r, expected %r (the failed evaluation committed nothing)" % (desc, label, r[1] if r[0] == "ok" else r[:2], want), case, mechanism="failed-evaluation-visible-to-later-load")
+            return rep
+    rep.nontriv(("c10leak",) + tuple(arg))
+    return rep
+
+
 def retry_job(arg):
     kind, store, k, cls, n = arg
     rep = core.Report("C10")
@@ -238,7 +303,7 @@ def run(tier, seed):
     rng = core.rng_for(seed, "c10")
     rep.rule = (
         "programs (matrix skeletons, random DAG programs) x every function reachable from the entry chosen as the failing one x exception classes %r (raised with a message, without arguments, with an empty or a two-line message) x failing before / after its sub-calls x stores "
-        "memory, local, local+cache; history in one process: populate (v0) -> failing v1 -> failing v1 again -> repaired v2 (optionally in a new process) -> a different pipeline -> v2 again; plus retry scenarios: one evaluation whose pipeline catches the exception of a kept call and calls it again (always failing x n attempts; failing the first n executions then succeeding), checked per attempt. "
+        "memory, local, local+cache; history in one process: populate (v0) -> failing v1 -> failing v1 again -> repaired v2 (optionally in a new process) -> a different pipeline -> v2 again; plus retry scenarios: one evaluation whose pipeline catches the exception of a kept call and calls it again (always failing x n attempts; failing the first n executions then succeeding), checked per attempt; and populate -> evaluation that completes a new sub-result for a committed path and then fails -> a pipeline that only loads that path. "
         "distinct_nontrivial = distinct (program, failing function, exception class, position, store) cases fully observed." % (EXC,)
     )
     programs = [progs.base_program("c10b0"), progs.base_program("c10b1", layout="one", entry_data=True)]
@@ -251,7 +316,7 @@ def run(tier, seed):
     jobs = []
     n = 0
     for pi, p0 in enumerate(programs):
-        fids = gen.reach(p0, p0["entry"])
+        fids = gen.reach(p0, p0["entry"], runtime=True)  # functions that execute (a class that is only referred to runs nothing)
         for fi, fid in enumerate(fids):
             for ci, cls in enumerate(EXC):
                 if tier == "quick" and (pi + fi + ci + seed) % 3 != 0 and not (pi < 2 and cls in ("ValueError", "KeyboardInterrupt") and fi % 2 == 0):
@@ -267,8 +332,9 @@ def run(tier, seed):
             rjobs.append(("twice", store, k, cls, 2 + ci % 3))
             rjobs.append(("retry", store, k, cls, 1 + ci % 3))
         rjobs.append(("df_twice", store, 0, "ValueError", 3))
-    results = core.fork_map(lambda j: retry_job(j[1]) if j[0] == "r" else case_job(j[1]), [("c", j) for j in jobs] + [("r", j) for j in rjobs], timeout=900)
-    for j, r in zip(jobs + [None] * len(rjobs), results):
+    ljobs = [(store, cls, kl) for store in ("local", "memory", "local_lru") for cls in ("ValueError", "KeyboardInterrupt") for kl in (False, True)]
+    results = core.fork_map(lambda j: {"r": retry_job, "c": case_job, "l": leak_job}[j[0]](j[1]), [("c", j) for j in jobs] + [("r", j) for j in rjobs] + [("l", j) for j in ljobs], timeout=900)
+    for j, r in zip(jobs + [None] * (len(rjobs) + len(ljobs)), results):
         if isinstance(r, core.JobFailed):
             rep.inconclusive.append("case: %r" % (r,))
             continue
@@ -285,6 +351,9 @@ def run(tier, seed):
 
 def replay(payload):
     rep = core.Report("C10")
+    if "leak" in payload["case"]:
+        rep.merge(leak_job(tuple(payload["case"]["leak"])))
+        return rep
     if "retry" in payload["case"]:
         rep.merge(retry_job(tuple(payload["case"]["retry"])))
         return rep
